@@ -387,6 +387,32 @@ impl FixedBitSet {
     pub open spec fn spec_contains(&self, i: int) -> bool { 0 <= i < self.bits@.len() && self.bits@[i] }
     pub fn contains(&self, bit: usize) -> (r: bool) ensures r == self.spec_contains(bit as int)
     { if bit < self.bits.len() { self.bits[bit] } else { false } }
+    /// ASSUMED (fixedbitset docs): a new set of `bits` bits, all clear
+    #[verifier::external_body]
+    pub fn with_capacity(bits: usize) -> (r: Self)
+        ensures r.bits@.len() == bits, forall|i: int| !(#[trigger] r.spec_contains(i))
+    { unimplemented!() }
+    /// ASSUMED (fixedbitset docs): sets bit `bit` to `enabled`; panics if `bit` is out of bounds
+    #[verifier::external_body]
+    pub fn set(&mut self, bit: usize, enabled: bool)
+        requires bit < old(self).bits@.len(),
+        ensures final(self).bits@ == old(self).bits@.update(bit as int, enabled),
+            forall|l: int| #[trigger] final(self).spec_contains(l) == (if l == bit as int { enabled } else { old(self).spec_contains(l) }),
+    { unimplemented!() }
+}
+/// stub of the `impl IntoIterator<Item = (VarNo, bool)>` argument of `eval_edge` (rule R10): `all()` is the sequence it
+/// yields, `done()` the prefix yielded so far (ASSUMED: std Iterator protocol)
+pub struct ArgIter { pub all: Ghost<Seq<(u32, bool)>>, pub done: Ghost<Seq<(u32, bool)>> }
+impl ArgIter {
+    pub open spec fn all(&self) -> Seq<(u32, bool)> { self.all@ }
+    pub open spec fn done(&self) -> Seq<(u32, bool)> { self.done@ }
+    #[verifier::external_body]
+    pub fn next(&mut self) -> (r: Option<(VarNo, bool)>)
+        ensures final(self).all() == old(self).all(),
+            r is None ==> old(self).done() == old(self).all() && final(self).done() == old(self).done(),
+            r is Some ==> old(self).done().len() < old(self).all().len() && r->Some_0 == old(self).all()[old(self).done().len() as int]
+                && final(self).done() == old(self).done().push(r->Some_0),
+    { unimplemented!() }
 }
 
 // ---------- items copied from the real crates ----------
@@ -414,6 +440,115 @@ impl<E: Edge> Children2<E> {
     { let r = self.a.take(); self.a = self.b.take(); r }
 }
 
+// ---------- eval (C10): the assignment denoted by the `(variable, value)` pairs, last value wins ----------
+pub open spec fn all_false() -> Env { |l: int| false }
+pub open spec fn all_true() -> Env { |l: int| true }
+/// `base` overridden by the pairs in order; `m` maps variable numbers to levels
+pub open spec fn aenv(args: Seq<(u32, bool)>, m: spec_fn(int) -> int, base: Env) -> Env decreases args.len() {
+    if args.len() == 0 { base } else { upd(aenv(args.drop_last(), m, base), m(args.last().0 as int), args.last().1) }
+}
+/// the pairs give a value to every level below `n`
+pub open spec fn total(args: Seq<(u32, bool)>, m: spec_fn(int) -> int, n: int) -> bool {
+    forall|l: int| 0 <= l < n ==> #[trigger] assigned(args, m, l)
+}
+pub open spec fn assigned(args: Seq<(u32, bool)>, m: spec_fn(int) -> int, l: int) -> bool {
+    exists|i: int| 0 <= i < args.len() && m((#[trigger] args[i]).0 as int) == l
+}
+/// C02 "eval agrees with the node-by-node interpretation": under a total assignment the result is the value of the
+/// diagram under that assignment (documented default for unassigned variables: false; irrelevant when total)
+pub open spec fn eval_post(t: Tree, args: Seq<(u32, bool)>, m: spec_fn(int) -> int, n: int, r: int) -> bool {
+    total(args, m, n) ==> r == val_at(t, aenv(args, m, all_false()))
+}
+pub broadcast proof fn lemma_aenv_push(s: Seq<(u32, bool)>, x: (u32, bool), m: spec_fn(int) -> int, base: Env)
+    ensures #[trigger] aenv(s.push(x), m, base) == upd(aenv(s, m, base), m(x.0 as int), x.1),
+{
+    assert(s.push(x).drop_last() =~= s);
+    assert(s.push(x).last() == x);
+}
+pub broadcast proof fn lemma_aenv_empty(m: spec_fn(int) -> int, base: Env)
+    ensures #[trigger] aenv(Seq::<(u32, bool)>::empty(), m, base) == base,
+{}
+pub proof fn lemma_aenv_base_irrelevant(args: Seq<(u32, bool)>, m: spec_fn(int) -> int, b1: Env, b2: Env, l: int, i: int)
+    requires 0 <= i < args.len(), m(args[i].0 as int) == l,
+    ensures aenv(args, m, b1)(l) == aenv(args, m, b2)(l),
+    decreases args.len(),
+{
+    if i < args.len() - 1 && m(args.last().0 as int) != l {
+        assert(args.drop_last()[i] == args[i]);
+        lemma_aenv_base_irrelevant(args.drop_last(), m, b1, b2, l, i);
+    }
+}
+pub open spec fn agree_below(e1: Env, e2: Env, n: int) -> bool { forall|i: int| 0 <= i < n ==> #[trigger] e1(i) == e2(i) }
+pub proof fn lemma_sem_agree_below(t: Tree, e1: Env, e2: Env, n: int)
+    requires below(t, n), agree_below(e1, e2, n),
+    ensures val_at(t, e1) == val_at(t, e2),
+    decreases t,
+{
+    match t {
+        Tree::Leaf(_) => {}
+        Tree::Inner(l, a, b) => { lemma_sem_agree_below(*a, e1, e2, n); lemma_sem_agree_below(*b, e1, e2, n); }
+    }
+}
+/// what the loop of `eval_edge` establishes (`ch` = the level -> decision map read off the bit set) implies eval_post
+pub broadcast proof fn lemma_eval_post(t: Tree, args: Seq<(u32, bool)>, m: spec_fn(int) -> int, n: int, ch: Env, r: int)
+    requires below(t, n), forall|l: int| #[trigger] ch(l) == aenv(args, m, all_true())(l), r == val_at(t, ch),
+    ensures #[trigger] eval_post(t, args, m, n, r), #[trigger] val_at(t, ch) == r,
+{
+    if total(args, m, n) {
+        let e = aenv(args, m, all_false());
+        assert(agree_below(ch, e, n)) by {
+            assert forall|l: int| 0 <= l < n implies #[trigger] ch(l) == e(l) by {
+                assert(assigned(args, m, l));
+                let i = choose|i: int| 0 <= i < args.len() && m((#[trigger] args[i]).0 as int) == l;
+                lemma_aenv_base_irrelevant(args, m, all_true(), all_false(), l, i);
+            }
+        }
+        lemma_sem_agree_below(t, ch, e, n);
+    }
+}
+pub broadcast group eval_lemmas { lemma_aenv_push, lemma_aenv_empty, lemma_eval_post }
+/// variable number -> level map of a manager as a spec function
+pub open spec fn vl<M: Manager>(m: &M) -> spec_fn(int) -> int { |v: int| m.var_to_level_spec(v) }
+// ---------- uniform cube picking (C13 "selects models without bias"): float / RNG stubs ----------
+/// stub of `f64` as used by `pick_cube_uniform_edge` (ASSUMED: F64 counts are exact, division is an uninterpreted function
+/// `fdiv` on reals; rounding, NaN and infinities are not modelled)
+#[derive(Clone, Copy)]
+pub struct Fl { pub v: Ghost<real> }
+impl Fl { pub open spec fn rv(self) -> real { self.v@ } }
+pub uninterp spec fn fdiv(a: real, b: real) -> real;
+impl std::ops::Add for Fl { type Output = Fl; #[verifier::external_body] fn add(self, rhs: Fl) -> (r: Fl) { unimplemented!() } }
+impl vstd::std_specs::ops::AddSpecImpl for Fl {
+    open spec fn obeys_add_spec() -> bool { true }
+    open spec fn add_req(self, rhs: Fl) -> bool { true }
+    open spec fn add_spec(self, rhs: Fl) -> Fl { Fl { v: Ghost(self.rv() + rhs.rv()) } }
+}
+impl std::ops::Div for Fl { type Output = Fl; #[verifier::external_body] fn div(self, rhs: Fl) -> (r: Fl) { unimplemented!() } }
+impl vstd::std_specs::ops::DivSpecImpl for Fl {
+    open spec fn obeys_div_spec() -> bool { true }
+    open spec fn div_req(self, rhs: Fl) -> bool { true }
+    open spec fn div_spec(self, rhs: Fl) -> Fl { Fl { v: Ghost(fdiv(self.rv(), rhs.rv())) } }
+}
+impl PartialEq for Fl { #[verifier::external_body] fn eq(&self, o: &Fl) -> (b: bool) { unimplemented!() } }
+impl PartialOrd for Fl { #[verifier::external_body] fn partial_cmp(&self, o: &Fl) -> (r: Option<core::cmp::Ordering>) { unimplemented!() } }
+impl vstd::std_specs::cmp::PartialEqSpecImpl for Fl {
+    open spec fn obeys_eq_spec() -> bool { true }
+    open spec fn eq_spec(&self, o: &Fl) -> bool { self.rv() == o.rv() }
+}
+impl vstd::std_specs::cmp::PartialOrdSpecImpl for Fl {
+    open spec fn obeys_partial_cmp_spec() -> bool { true }
+    open spec fn partial_cmp_spec(&self, o: &Fl) -> Option<core::cmp::Ordering> {
+        if self.rv() < o.rv() { Some(core::cmp::Ordering::Less) } else if self.rv() == o.rv() { Some(core::cmp::Ordering::Equal) } else { Some(core::cmp::Ordering::Greater) }
+    }
+}
+/// stub of `oxidd_core::util::num::F64` (newtype around f64)
+pub struct F64(pub Fl);
+/// stub of `oxidd_core::util::Rng`: `draw()` is the next uniform sample in [0, 1)
+pub struct Rng { pub next: Ghost<real> }
+impl Rng {
+    pub open spec fn draw(&self) -> real { self.next@ }
+    #[verifier::external_body]
+    pub fn generate_f64(&mut self) -> (r: Fl) ensures r.rv() == old(self).draw(), 0real <= r.rv() < 1real { unimplemented!() }
+}
 mod rules {
 use super::*;
 broadcast use {leaf_lemmas, restrict_lemmas};
@@ -526,15 +661,6 @@ where M: Manager<Terminal = T>, T: NumberBase,
     requires num_laws::<T>(), (var as int) < manager.num_levels_spec(),
     ensures res is Ok ==> ok(res->Ok_0.view(), manager.num_levels_spec())
         && forall|env: Env| #[trigger] val_at(res->Ok_0.view(), env) == (if env(manager.var_to_level_spec(var as int)) { T::s_one() } else { T::s_zero() }),
-//@end
-//@fn file=crates/oxidd-rules-mtbdd/src/apply_rec.rs path=impl:PseudoBooleanFunction~for~MTBDDFunction<F>/fn:eval_edge/fn:inner rename=eval_edge__inner ret=r props=C10
-//@header
-fn eval_edge__inner<M, T: Clone + NumberBase>(manager: &M, edge: Borrowed<M::Edge>, choices: &FixedBitSet) -> (r: T)
-where M: Manager<Terminal = T>, M::InnerNode: HasLevel,
-//@spec
-    requires wf(edge.view()), forall|a: T, b: T| cloned(a, b) ==> #[trigger] a.val() == #[trigger] b.val(),
-    ensures r.val() == val_at(edge.view(), |l: int| !choices.spec_contains(l)),
-    decreases edge.view(),
 //@end
 //@fn file=crates/oxidd-rules-mtbdd/src/apply_rec.rs path=impl:PseudoBooleanFunction~for~MTBDDFunction<F>/fn:add_edge props=C10
 //@header
@@ -670,6 +796,40 @@ where M: Manager<Terminal = T> + HasApplyCache<M, MTBDDOp>, M::InnerNode: HasLev
     ensures res is Ok ==> restrict_post::<T>(this.view(), vars.view(), manager.num_levels_spec(), res->Ok_0.view()),
 //@end
 } // mod apply_rec
+pub mod apply_rec_e {
+use super::*;
+broadcast use {leaf_lemmas, eval_lemmas};
+//@fn file=crates/oxidd-rules-mtbdd/src/apply_rec.rs path=impl:PseudoBooleanFunction~for~MTBDDFunction<F>/fn:eval_edge/fn:inner rename=eval_edge__inner ret=r props=C10
+//@header
+fn eval_edge__inner<M, T: Clone + NumberBase>(manager: &M, edge: Borrowed<M::Edge>, choices: &FixedBitSet) -> (r: T)
+where M: Manager<Terminal = T>, M::InnerNode: HasLevel,
+//@spec
+    requires wf(edge.view()), forall|a: T, b: T| cloned(a, b) ==> #[trigger] a.val() == #[trigger] b.val(),
+    ensures r.val() == val_at(edge.view(), |l: int| !choices.spec_contains(l)),
+    decreases edge.view(),
+//@end
+//@fn file=crates/oxidd-rules-mtbdd/src/apply_rec.rs path=impl:PseudoBooleanFunction~for~MTBDDFunction<F>/fn:eval_edge hoist=inner>eval_edge__inner forinv=0 ret=r props=C10
+//@header
+fn eval_edge<M, T: Clone + NumberBase>(manager: &M, edge: &M::Edge, args: ArgIter) -> (r: T)
+where M: Manager<Terminal = T>, M::InnerNode: HasLevel,
+//@spec
+    requires ok(edge.view(), manager.num_levels_spec()), args.done() == Seq::<(u32, bool)>::empty(),
+        forall|a: T, b: T| cloned(a, b) ==> #[trigger] a.val() == #[trigger] b.val(),
+        // documented panic otherwise
+        forall|i: int| 0 <= i < args.all().len() ==> (#[trigger] args.all()[i].0 as int) < manager.num_levels_spec(),
+    ensures eval_post(edge.view(), args.all(), vl(manager), manager.num_levels_spec(), r.val()),
+//@loop
+    invariant
+        iter__0.all() == args.all(), iter__0.done().len() <= iter__0.all().len(),
+        forall|i: int| 0 <= i < iter__0.all().len() ==> (#[trigger] iter__0.all()[i].0 as int) < manager.num_levels_spec(),
+        choices.bits@.len() == manager.num_levels_spec(),
+        forall|l: int| !(#[trigger] choices.spec_contains(l)) == aenv(iter__0.done(), vl(manager), all_true())(l),
+    ensures
+        iter__0.all() == args.all(),
+        forall|l: int| !(#[trigger] choices.spec_contains(l)) == aenv(iter__0.all(), vl(manager), all_true())(l),
+    decreases iter__0.all().len() - iter__0.done().len(),
+//@end
+} // mod apply_rec_e
 } // mod rules
 } // verus!
 fn main() {}
